@@ -325,11 +325,124 @@ fn print_check(out: &mut String) {
     out.push_str("]}");
 }
 
+/// C15 corpus: association lists with keys of every name kind and the same text, duplicates, non-pair entries,
+/// improper tails; lookups by name and by value against a straightforward reference walk.
+fn alist_check(out: &mut String) {
+    let keys: Vec<Value> = vec![Value::string("a"), Value::symbol("a"), Value::keyword("a"), Value::string("b"), Value::symbol("b"),
+        Value::from(1u64), Value::from('a'), Value::Nil, Value::Null, Value::from(true)];
+    let mut lists: Vec<Value> = Vec::new();
+    // all ordered pairs / triples of distinct keys as entries, plus non-pair entries and improper tails
+    for i in 0..keys.len() {
+        for j in 0..keys.len() {
+            let e1 = Value::cons(keys[i].clone(), Value::from(10 + i as u64));
+            let e2 = Value::cons(keys[j].clone(), Value::from(20 + j as u64));
+            lists.push(Value::list(vec![e1.clone(), e2.clone()]));
+            lists.push(Value::list(vec![Value::from(5u64), e1.clone(), Value::symbol("x"), e2.clone()]));
+            lists.push(Value::append(vec![e1, e2], Value::from(99u64)));
+        }
+    }
+    lists.push(Value::Null);
+    lists.push(Value::from(3u64));
+    lists.push(Value::vector(vec![Value::cons(Value::symbol("a"), Value::from(1u64))]));
+    let mut bad: Vec<String> = Vec::new();
+    let mut cases = 0usize;
+    fn walk<'a>(l: &'a Value, pred: &dyn Fn(&Value) -> bool) -> Option<&'a Value> {
+        let mut cur = l;
+        while let Value::Cons(c) = cur {
+            if let Value::Cons(inner) = c.car() {
+                if pred(inner.car()) { return Some(inner.cdr()); }
+            }
+            cur = c.cdr();
+        }
+        None
+    }
+    for l in &lists {
+        for k in &keys {
+            cases += 1;
+            let want = walk(l, &|x| x == k);
+            let got = l.get(k);
+            if want != got || &l[k] != want.unwrap_or(&Value::Nil) {
+                bad.push(format!("get({:?}) on {} -> {:?}, expected {:?}", k, l, got, want));
+            }
+        }
+        for name in ["a", "b", "zz"] {
+            cases += 1;
+            let want = walk(l, &|x| x.as_name() == Some(name));
+            let got = l.get(name);
+            if want != got || &l[name] != want.unwrap_or(&Value::Nil) || l.get(name.to_string()) != want {
+                bad.push(format!("get({:?}) on {} -> {:?}, expected {:?}", name, l, got, want));
+            }
+        }
+        if bad.len() > 5 { break; }
+    }
+    write!(out, "{{\"cases\":{},\"bad\":[", cases).unwrap();
+    for (i, b) in bad.iter().take(5).enumerate() {
+        if i > 0 { out.push(','); }
+        jstr(out, b.as_bytes());
+    }
+    out.push_str("]}");
+}
+
+fn long_list(n: usize, dotted: bool) -> Value {
+    Value::append((0..n as u64).map(Value::from), if dotted { Value::from(7u64) } else { Value::Null })
+}
+
+fn long_text(n: usize, dotted: bool) -> String {
+    let mut s = String::with_capacity(n * 2 + 8);
+    s.push('(');
+    for _ in 0..n { s.push_str("1 "); }
+    if dotted { s.push_str(". 2"); }
+    s.push(')');
+    s
+}
+
+fn stack_op(op: &str, n: usize, dotted: bool) -> usize {
+    match op {
+        "build" => { let v = long_list(n, dotted); let r = v.is_cons() as usize; std::mem::forget(v); r }
+        "drop" => { let v = long_list(n, dotted); drop(v); 1 }
+        "clone" => { let v = long_list(n, dotted); let w = v.clone(); let r = w.is_cons() as usize; std::mem::forget(v); std::mem::forget(w); r }
+        "eq" => { let v = long_list(n, dotted); let w = long_list(n, dotted); let r = (v == w) as usize; std::mem::forget(v); std::mem::forget(w); r }
+        "debug" => { let v = long_list(n, dotted); let s = format!("{:?}", v); std::mem::forget(v); s.len() }
+        "print" => { let v = long_list(n, dotted); let s = lexpr::to_string(&v).unwrap(); std::mem::forget(v); s.len() }
+        "display" => { let v = long_list(n, dotted); let s = format!("{}", v); std::mem::forget(v); s.len() }
+        "to_vec" => { let v = long_list(n, dotted); let r = v.as_cons().unwrap().to_ref_vec().0.len(); std::mem::forget(v); r }
+        "to_vec_owned" => { let v = long_list(n, dotted); let r = v.as_cons().unwrap().to_vec().0.len(); std::mem::forget(v); r }
+        "into_vec" => { let v = long_list(n, dotted); if let Value::Cons(c) = v { c.into_vec().0.len() } else { 0 } }
+        "iter" => { let v = long_list(n, dotted); let r = v.as_cons().unwrap().iter().count(); std::mem::forget(v); r }
+        "list_iter" => { let v = long_list(n, dotted); let r = v.list_iter().unwrap().count(); std::mem::forget(v); r }
+        "into_iter" => { let v = long_list(n, dotted); if let Value::Cons(c) = v { c.into_iter().count() } else { 0 } }
+        "get" => { let v = long_list(n, dotted); let r = v.get(n - 1).is_some() as usize; std::mem::forget(v); r }
+        "is_list" => { let v = long_list(n, dotted); let r = v.is_list() as usize + v.is_dotted_list() as usize; std::mem::forget(v); r }
+        "parse" => { let t = long_text(n, dotted); let v = lexpr::from_str(&t).unwrap(); let r = v.is_cons() as usize; std::mem::forget(v); r }
+        "parse_drop" => { let t = long_text(n, dotted); let v = lexpr::from_str(&t).unwrap(); drop(v); 1 }
+        "datum_parse" => { let t = long_text(n, dotted); let d = lexpr::datum::from_reader(t.as_bytes()).unwrap(); let r = d.value().is_cons() as usize; std::mem::forget(d); r }
+        "datum_drop" => { let t = long_text(n, dotted); let d = lexpr::datum::from_reader(t.as_bytes()).unwrap(); drop(d); 1 }
+        "datum_clone" => { let t = long_text(n, dotted); let d = lexpr::datum::from_reader(t.as_bytes()).unwrap(); let e = d.clone(); std::mem::forget(d); std::mem::forget(e); 1 }
+        "datum_eq" => { let t = long_text(n, dotted); let d = lexpr::datum::from_reader(t.as_bytes()).unwrap(); let e = lexpr::datum::from_reader(t.as_bytes()).unwrap(); let r = (d == e) as usize; std::mem::forget(d); std::mem::forget(e); r }
+        "datum_iter" => { let t = long_text(n, dotted); let d = lexpr::datum::from_reader(t.as_bytes()).unwrap(); let r = d.list_iter().unwrap().count(); std::mem::forget(d); r }
+        #[cfg(feature = "fast-float")]
+        "to_value" => { let xs: Vec<u64> = (0..n as u64).collect(); let v = serde_lexpr::to_value(&xs).unwrap(); let r = v.is_cons() as usize; std::mem::forget(v); r }
+        #[cfg(feature = "fast-float")]
+        "from_value" => { let v = long_list(n, false); let xs: Vec<u64> = serde_lexpr::from_value(&v).unwrap(); std::mem::forget(v); xs.len() }
+        _ => panic!("unknown op"),
+    }
+}
+
 fn main() {
     let a: Vec<String> = std::env::args().collect();
     let mut out = String::new();
     match a[1].as_str() {
         "printcheck" => print_check(&mut out),
+        "alistcheck" => alist_check(&mut out),
+        "stack" => {
+            // stack <op> <n> [dotted]: run one list-walking operation on an n-element list on a 2 MiB thread
+            let op = a[2].clone();
+            let n: usize = a[3].parse().unwrap();
+            let dotted = a.get(4).map(|s| s == "dotted").unwrap_or(false);
+            let h = std::thread::Builder::new().stack_size(2 * 1024 * 1024).spawn(move || stack_op(&op, n, dotted)).unwrap();
+            let r = h.join().unwrap();
+            write!(out, "{{\"ok\":true,\"result\":{}}}", r).unwrap();
+        }
         "parse" => {
             let opts = parse_opts(&a[2]);
             let src = a[3].as_str();
